@@ -44,6 +44,10 @@ Does NOT require (never flagged):
  * that a broken tail is a syntax error for xonsh at all (`x = = 1`, `def :` are valid *commands*):
    clause (d) only speaks about inputs for which xonsh does raise SyntaxError;
  * what `n and m` means after `del n` (per-operand decision): boolean uses are not in clause (c);
+   (one deliberate exception to the NameError rule above, directed by the property owner: a name bound
+   earlier in the same scope and then reused by `except E as <name>` whose handler RAN is unbound for
+   CPython, but the static decision must still be "Python" - judged as tree equality + NameError on both
+   sides + no spawn; see c02_space.STATIC_BOUND_MIDS)
  * whether / when a failing command raises (C05): clause (m) takes the outcome of the command lines
    run alone as given and only demands that the Python part is untouched by them.
 """
@@ -495,7 +499,11 @@ def eval_py_src(src, sess):
         return {"status": "drop:invalid-python", "detail": str(e)}
     ref = _run(src, sess, "ref")
     if ref["exc"] in ("NameError", "UnboundLocalError"):
-        return {"status": "drop:precondition"}
+        # outside the precondition "every name read is defined" - except when the name IS bound earlier in
+        # the same scope of the source and only an `except ... as <same name>` block that ran unbound it:
+        # xonsh decides statically, the line stays Python (NameError at the use on both sides, no spawn)
+        if not (sess.get("static_bound") and sess.get("use_line") is not None and ref["line"] == sess["use_line"]):
+            return {"status": "drop:precondition"}
     a_sig = None
     a_obs = None
     try:
@@ -921,7 +929,7 @@ def _eval_item(item):
         if kind == "py":
             bt = S.build(c)
             r = eval_py_src(bt["src"], bt)
-            r["case"] = {"clause": "py", "src": bt["src"], "globals": bt["globals"], "locals": bt["locals"]}
+            r["case"] = {"clause": "py", "src": bt["src"], "globals": bt["globals"], "locals": bt["locals"], "static_bound": bt["static_bound"], "use_line": bt["use_line"]}
         elif kind == "del":
             if not _use_alone_ok(c):
                 r = {"status": "drop:c03"}
@@ -1282,7 +1290,7 @@ def enumerate_items(thorough):
                 for b in fam_reps:
                     for u in ("sub-flag", "not", "and"):
                         add(("py", _T(b=b, mid=mid, u=u)))
-            for mid in ("del-subscript", "del-attr", "del-tuple-subscript"):
+            for mid in ("del-subscript", "del-attr", "del-tuple-subscript", "except-reuse-not-taken", "except-reuse-taken"):
                 for b in binders:
                     add(("py", _T(b=b, mid=mid)))
             for o, i in pl1:
@@ -1580,7 +1588,7 @@ def replay(rec):
                 print(f"  [{k}] harness: {st[0]} {st[2]!r} in {dict(B='builtins', G='session globals', L='exec locals')[st[1]]}")
         sess = None
     else:
-        sess = {"globals": case["globals"], "locals": case["locals"]}
+        sess = {"globals": case["globals"], "locals": case["locals"], "static_bound": case.get("static_bound", False), "use_line": case.get("use_line")}
         print("source  :")
         for ln in case["src"].splitlines():
             print("    " + ln)
